@@ -970,7 +970,8 @@ func c16Configs(env *mc.Env) []*c16Cfg {
 		// allowance == replicas for w2: its jobs are refused for good (Failed) while w1 competes for node / namespace slots
 		{name: "wl2-nonretryable", elig: all, perNode: i(2), perNs: i(2), perWl: c16IS("2"), maxUnav: c16IS("2"), depthQ: 6, depthT: 9},
 		// the arbitrator's copy of a waiting job goes stale (another writer updated the job): its Update conflicts
-		{name: "conflict-global1", elig: []string{"a1", "b1", "b2"}, global: i(1), perWl: c16IS("70%"), maxUnav: c16IS("70%"), touch: true, depthQ: 7, depthT: 10},
+		// (the update event also makes the migration controller start the job without arbitration: limits exceeded before a round)
+		{name: "conflict-ns1-global2", elig: []string{"a1", "b1", "b2"}, perNs: i(1), global: i(2), perWl: c16IS("70%"), maxUnav: c16IS("70%"), touch: true, depthQ: 7, depthT: 10},
 		// jobs already Running above the node cap when the arbitrator starts (delivered as Create events by the initial
 		// sync): the only way a count cap can be "already exceeded before the round"
 		{name: "adopted-running-node1", elig: all, adopted: []string{"a1", "a3"}, perNode: i(1), global: i(3), perWl: c16IS("70%"), maxUnav: c16IS("70%"), depthQ: 6, depthT: 9},
